@@ -36,6 +36,23 @@ def _mask_inconclusive(ctx):
     ctx.run_impl, ctx.run_model = run_impl, run_model
 
 
+def _stress_corpus(ctx):
+    """corpus/C16/stress.*.ops: fixed configurations (the one in which the unrepaired Close hung) run first"""
+    lines = ctx.corpus("stress")
+    if not lines or ctx.replay or "harness" not in ctx.harness_bin:
+        return
+    outs = ctx.run_impl("stress", lines, timeout=600, extra_env={"C16_STRESS_PAR": "4"}) or []
+    for l, o in zip(lines, outs):
+        ctx.extra["oracle_stress_corpus"] = ctx.extra.get("oracle_stress_corpus", 0) + 1
+        if not o.startswith("ok"):
+            rep = {"property": ctx.id, "kind": "impl-oracle", "area": "stress", "harness": "harness", "ops": [l],
+                   "impl_outputs": [o], "concrete_failing_input": True,
+                   "note": "Close-vs-tick stress, corpus configuration; contradicts C16.close_returns / "
+                           "answer_exactly_once / close_marks_subtree_and_fails_pending"}
+            ctx.violations.append({"kind": "impl-oracle", "what": "stress: %s on `%s`" % (o[:200], l),
+                                   "replay": ctx._write_replay(rep), "concrete": True})
+
+
 def run(ctx):
     ctx.modelled += [
         "every critical section under controller.lock is one atomic step of RL.Step; the ticker goroutine and the "
@@ -55,19 +72,22 @@ def run(ctx):
         "close_returns is deadlock-freedom plus a 3-step path to the return; that the Go scheduler and `select` "
         "eventually take an enabled step is assumed",
         "timing: a lock-step burst counts only if it certainly lies within one period (wall-clock window check)",
+        "lastUsed_spec is about limiters still linked into the tree: a child unlinked by its own Close is no longer "
+        "reset, its LastUsed keeps the value of the last tick before its Close (model and code agree)",
     ]
     ctx.lean(props=["Props.C16"], drivers=["drv_c16"])
     ctx.harness("./cmd/c16", overlay=OVERLAY)
     _mask_inconclusive(ctx)
     period = "200" if ctx.tier == "quick" else "120"
-    ctx.diff(area="burst", driver="drv_c16", n={"quick": 12000, "thorough": 400000}, stateful=True,
+    ctx.diff(area="burst", driver="drv_c16", n={"quick": 60000, "thorough": 1200000}, stateful=True,
              trivial=lambda l, o: o == "inconclusive",
              extra_env={"C16_PERIOD_MS": period, "C16_PAR": "64"}, timeout=600,
              theorem="C16.granted_le_cap / lastUsed_spec / answer_exactly_once / immediate_errors / "
                      "waiting_served_fifo_as_capacity_returns / close_marks_subtree_and_fails_pending are about "
                      "RL.exec; the implementation answers differently from RL.exec on this history",
              what="lock-step history: `tick` = exactly one tick of the ticker goroutine; rK = K-th Use call")
-    ctx.impl_oracle("stress", n={"quick": 48, "thorough": 600}, timeout=1500,
+    _stress_corpus(ctx)
+    ctx.impl_oracle("stress", n={"quick": 96, "thorough": 1200}, timeout=1500,
                     label="Close on root/child concurrently with microsecond ticks and Use calls; every attempt under "
                           "a 5 s deadline in a child process (C16.close_returns / answer_exactly_once / "
                           "close_marks_subtree_and_fails_pending)",
